@@ -227,6 +227,28 @@ def tamper(t, wires, cookies=()):
             hdr += [59, 32]
         hdr += w
     k = t['kind']
+    if k == 6:
+        # a foreign cookie pair (set by another application on the same host) travels in the same header
+        pair = list(t['repl'])
+        if t['b'] == 0:
+            return pair + [59, 32] + hdr
+        if t['b'] == 1:
+            return hdr + [59, 32] + pair
+        if not wires:
+            return pair
+        out = list(wires[0]) + [59, 32] + pair
+        for w in wires[1:]:
+            out += [59, 32] + list(w)
+        return out
+    if k == 7:
+        # one character of the header written as its percent escape
+        if not hdr:
+            return hdr
+        p = t['a'] % len(hdr)
+        c = hdr[p]
+        if c >= 256:
+            return hdr
+        return hdr[:p] + cps('%%%02X' % c) + hdr[p + 1:]
     if k == 5 and wires:
         # alterations of the signature that keep the multiset or the sum of its bytes (same as Cookie.v:sig_edit)
         w1 = wires[0]
@@ -341,6 +363,16 @@ def corpus():
         scn([('a', obj, S), ('b', [1, 2], S)], dict(kind=2, a=0, b=0, repl=[])),    # signature swap
         scn([('a', obj, S), ('b', [1, 2], S)], dict(kind=3, a=0, b=0, repl=[])),    # replay b's value as a
         scn([('a', obj, S), ('a', [1, 2], S)]),                                     # same name twice
+        # cookie names that look like cookie attributes but are not attributes of the running http.cookies
+        scn([('priority', 'High', None)]), scn([('Partitioned', obj, S)]), scn([('PRIORITY', 'x', None), ('sid', obj, S)], rname='sid'),
+        scn([('sid', obj, S)], dict(kind=6, a=0, b=0, repl=cps('priority=High'))),       # a foreign pair first in the header
+        scn([('sid', obj, S)], dict(kind=6, a=0, b=1, repl=cps('partitioned=1'))),       # ... last
+        scn([('sid', obj, S), ('b', 'two', None)], dict(kind=6, a=0, b=2, repl=cps('Priority=x'))),   # ... in the middle
+        scn([('sid', obj, S)], dict(kind=6, a=0, b=0, repl=cps('path=/'))),              # a REAL attribute word: the parser gives up
+        # percent signs are ordinary characters in a cookie: nothing is percent-decoded
+        scn([('a', '100%25 %41%zz%', None)]), scn([('a', '%C3%A9', None)]), scn([('a', '%', None)]),
+        scn([('a', obj, S)], dict(kind=7, a=10, b=0, repl=[])),                         # a signature character as %XX
+        scn([('a', obj, S)], dict(kind=7, a=40, b=0, repl=[])),                         # a payload character as %XX
         # signature alterations that keep the sum / the multiset of its bytes (a compare that adds up differences)
         scn([('a', obj, S)], dict(kind=5, a=3, b=1, repl=[9, 1])),      # +1 on one character, -1 on another
         scn([('a', obj, S)], dict(kind=5, a=0, b=0, repl=[])),          # two adjacent characters swapped
@@ -427,8 +459,7 @@ def gen_name(rng):
     if r < 0.85:
         return '$' + ''.join(rng.choice(LEGAL[:52]) for _ in range(rng.randrange(0, 3)))
     if r < 0.9:
-        return rng.choice(['path', 'Path', 'EXPIRES', 'max-age', 'secure', 'httponly', 'samesite', 'comment',
-                           'version', 'domain', 'Domain'])
+        return rng.choice(ATTR_WORDS)
     return rng.choice(['', 'a b', 'a=b', 'a;b', '\xe9', 'a"', 'a,b', 'a\u0100', '[a]', 'a@b', 'a/b', 'a?'])
 
 
@@ -439,8 +470,11 @@ def gen_text(rng, maxlen=12):
         al = LEGAL
     elif r < 0.5:
         al = LEGAL[:20] + SEPS + NASTY
-    elif r < 0.7:
+    elif r < 0.6:
         al = 'ab' + NASTY + '"\\01234567'
+    elif r < 0.7:                                # literal percent signs and things that look like escapes
+        return ''.join(rng.choice(['%', '%25', '%41', '%C3%A9', '%zz', '%2', 'a', '1', '%3B', '%22', '%0A'])
+                       for _ in range(rng.randrange(1, 5)))
     elif r < 0.85:
         al = 'ab' + ''.join(chr(c) for c in (0x80, 0xff, 0x100, 0x44f, 0x20ac, 0x1f600, 0x7ff, 0x800, 0xffff))
     else:
@@ -514,11 +548,27 @@ def gen_sig_edit(rng):
     return dict(kind=5, a=rng.randrange(0, 400), b=sub, repl=[rng.randrange(0, 64), rng.choice([1, 1, 2, 3, 7])])
 
 
+ATTR_WORDS = ['path', 'domain', 'expires', 'max-age', 'secure', 'httponly', 'samesite', 'version', 'comment',
+              'priority', 'partitioned', 'Priority', 'PARTITIONED', 'Path', 'SameSite', 'sameparty', 'Max-Age']
+STOCK_RESERVED = {'expires', 'path', 'comment', 'domain', 'max-age', 'secure', 'httponly', 'version', 'samesite'}
+
+
+def gen_foreign(rng):
+    """a cookie pair of another application in the same header, named like a cookie attribute (or not)"""
+    name = rng.choice(ATTR_WORDS + ['priority', 'partitioned', 'other', 'zz'])
+    val = rng.choice(['High', '1', '/', 'x', '"q v"', 'Lax'])
+    return dict(kind=6, a=0, b=rng.choice([0, 0, 1, 2]), repl=cps(name + '=' + val))
+
+
 def gen_tamper(rng, two):
     r = rng.random()
     a = rng.randrange(0, 400)
     if r < 0.2:
         return gen_sig_edit(rng)
+    if r < 0.32:
+        return gen_foreign(rng)
+    if r < 0.45:
+        return dict(kind=7, a=a, b=0, repl=[])
     if r < 0.45:
         return dict(kind=1, a=a, b=1, repl=[rng.choice(SUBST + [rng.randrange(256)])])
     if r < 0.55:
@@ -544,7 +594,7 @@ def gen_scn(rng):
         c = scn(cookies, rname=rng.choice(cookies)[0])
         if rng.random() < 0.1:
             c['rsecret'] = 's3cr3t'
-        if rng.random() < 0.15:
+        if rng.random() < 0.25:
             c['tamper'] = gen_tamper(rng, len(cookies) > 1)
         if rng.random() < 0.03:
             c['cookies'][0]['value'] = rng.choice(['a' * 4096, 'a' * 4097, ';' * 4096, 7, None, ['x']])
@@ -577,7 +627,7 @@ def gen_parse(rng):
     parts = []
     for _ in range(rng.randrange(1, 5)):
         k = rng.choice(['a', 'b', 'sid', '$Version', '$Path', '$x', 'path', 'Domain', 'secure', 'HttpOnly', 'expires',
-                        'a@b', 'k=', 'x[1]', 'max-age', 'comment', ''])
+                        'a@b', 'k=', 'x[1]', 'max-age', 'comment', '', 'priority', 'Partitioned', 'samesite', 'version'])
         q = rng.random()
         if q < 0.15:
             parts.append(k)
@@ -1283,6 +1333,12 @@ def oracle(case, obs):
         return None
     if obs.get('hang') or obs.get('escaped'):
         return 'harness: %s' % obs
+    if obs['st'] == 'set_error' and obs.get('e') == 3:
+        c = case['cookies'][obs['i']]
+        n = c['name']
+        if n and all(ch in LEGAL for ch in n) and n.lower() not in STOCK_RESERVED:
+            return ('set_cookie refused the name %r (CookieError): a legal cookie token that is not an attribute of '
+                    'http.cookies' % n)
     if obs['st'] != 'ok':
         return None                                # the cookie was refused when it was set: nothing to read back
     f = check_read(case, obs['hdr'], case['rname'], case['rsecret'], obs['got'], obs['loads'])
@@ -1318,7 +1374,7 @@ def oracle(case, obs):
         if got != ref:
             return ('%s on the same request (%s) returned %s but a fresh request with the header in force returns %s: '
                     'a read depends on the reads before it' % (label, rd, str(got)[:60], str(ref)[:60]))
-        if replaced or case['tamper']['kind'] != 0 or kind not in ('item', 'attr'):
+        if replaced or not untouched(case) or kind not in ('item', 'attr'):
             continue
         # the untouched plain cookie through the other read paths of request.cookies
         mine = [c for c in case['cookies'] if c['name'] == rd[1]]
@@ -1339,6 +1395,20 @@ def describe_s(got):
     return 'default' if got[1] is None else repr(uncps(got[1])[:20])
 
 
+def untouched(case):
+    """the cookies travel as they were emitted: no tampering, or only a foreign cookie pair next to them whose
+    name is a legal token, not an attribute word of the stock http.cookies, not $-prefixed and not a name of ours"""
+    t = case['tamper']
+    if t['kind'] == 0:
+        return True
+    if t['kind'] != 6:
+        return False
+    pair = uncps(t['repl'])
+    name = pair.split('=', 1)[0]
+    return (bool(name) and all(ch in LEGAL for ch in name) and name.lower() not in STOCK_RESERVED
+            and not name.startswith('$') and name not in [c['name'] for c in case['cookies']])
+
+
 def check_read(case, hdr, rname, rsec, got, loads):
     cookies = case['cookies']
     signed = [c for c in cookies if c['secret']]
@@ -1351,7 +1421,7 @@ def check_read(case, hdr, rname, rsec, got, loads):
         ok = [c for c in signed if c['secret'] == rsec and pk_of(c) == loads and contains(hdr, authentic(c))]
         if not ok:
             return 'unpickler reached with bytes that are not an untouched cookie signed with this secret (%d bytes)' % len(loads)
-    if got[0] in ('other', 'raise', 'cookie_error') and case['tamper']['kind'] == 0:
+    if got[0] in ('other', 'raise', 'cookie_error') and untouched(case):
         return 'reading an untouched cookie failed: %s' % got
     # 2. a value is only ever read from an untouched cookie of that name and secret
     if rsec and got[0] == 'val':
@@ -1361,7 +1431,7 @@ def check_read(case, hdr, rname, rsec, got, loads):
     if rsec and got[0] in ('str', 'other'):
         return 'signed read returned something that did not pass verification: %s' % got[:1]
     # 3. round trip of the untouched cookie
-    if case['tamper']['kind'] == 0:
+    if untouched(case):
         mine = [c for c in cookies if c['name'] == rname]
         if mine:
             c = mine[-1]
@@ -1381,7 +1451,7 @@ def describe(got):
 
 
 def _plain_rt(case, what):
-    return (case.get('mode') == 'scn' and case['tamper']['kind'] == 0
+    return (case.get('mode') == 'scn' and untouched(case)
             and (what == 'disagreement' or 'plain cookie does not round-trip' in str(what))
             and 'depends on the reads before it' not in str(what))
 
@@ -1408,7 +1478,7 @@ def _read_cookies(case, what):
 def pred_attr_latin1(case, what, m):
     """request.cookies.<name> / getunicode re-reads the value as UTF-8: values with a code point in 128..255 come
     back as the default (or as other text when they happen to be valid UTF-8)"""
-    if case.get('mode') != 'scn' or case['tamper']['kind'] != 0 or 'attribute access' not in str(what):
+    if case.get('mode') != 'scn' or not untouched(case) or 'attribute access' not in str(what):
         return False
     return any(isinstance(c['value'], str) and any(127 < ord(ch) < 256 for ch in c['value'])
                for c in _read_cookies(case, what))
@@ -1429,7 +1499,7 @@ def pred_empty(case, what, m):
 def pred_dollar(case, what, m):
     """some cookie of the response has a name starting with '$': read back it is an RFC 2965 attribute, which
     drops it (first position) or makes SimpleCookie raise CookieError for the whole header (later position)"""
-    if case.get('mode') != 'scn' or case['tamper']['kind'] != 0:
+    if case.get('mode') != 'scn' or not untouched(case):
         return False
     return any(c['name'].startswith('$') for c in case['cookies']) and (
         what == 'disagreement' or 'does not round-trip' in str(what)
@@ -1466,7 +1536,7 @@ def classify(case, obs):
     if case['mode'] != 'scn':
         return case['mode']
     k = case['tamper']['kind']
-    t = ['untouched', 'splice', 'sigswap', 'replay', 'resigned', 'sigedit'][k]
+    t = ['untouched', 'splice', 'sigswap', 'replay', 'resigned', 'sigedit', 'foreign', 'percent'][k]
     kind = 'signed' if case['cookies'][0]['secret'] else 'plain'
     st = obs.get('st')
     return 'scn/%s/%s/%s/%s' % (kind, t, st, (obs.get('got') or ['-'])[0])
